@@ -138,6 +138,9 @@ type Facts struct {
 	HandlerDup []string
 	Builtins   map[string]*Builtin
 	BuiltinVar *ssa.Global
+	// BuiltinBind: for builtin implementations that are closures built by a factory: what their free variables hold
+	// (keyed by "<overload table or builtin name>#<arity>")
+	BuiltinBind map[string]map[*ssa.FreeVar]ssa.Value
 	HandlerVar *ssa.Global
 	err        []string
 }
@@ -436,6 +439,18 @@ func (w *World) extractBuiltins(f *Facts) {
 		if b, ok := mt.Key().Underlying().(*types.Basic); ok && b.Info()&types.IsInteger != 0 {
 			k, ok := constInt(mu.Key)
 			fn, _ := stripConv(mu.Value).(*ssa.Function)
+			if fn == nil {
+				// an entry built by a factory of the package (`nameFunction(kind, operand)`): the closure it returns
+				if call, isCall := stripConv(mu.Value).(*ssa.Call); isCall {
+					if cf, bind := closureFromFactory(call); cf != nil {
+						fn = cf
+						if f.BuiltinBind == nil {
+							f.BuiltinBind = map[string]map[*ssa.FreeVar]ssa.Value{}
+						}
+						f.BuiltinBind[fmt.Sprintf("%s#%d", g.Name(), k)] = bind
+					}
+				}
+			}
 			if !ok || fn == nil {
 				f.err = append(f.err, "overload table with non-constant entry at "+w.pos(mu.Pos()))
 				return
@@ -484,9 +499,22 @@ func (w *World) extractBuiltins(f *Facts) {
 					if og, ok := ld.X.(*ssa.Global); ok && overloads[og] != nil {
 						for k, fn := range overloads[og] {
 							b.Fns[k] = fn
+							if bd, ok := f.BuiltinBind[fmt.Sprintf("%s#%d", og.Name(), k)]; ok {
+								f.BuiltinBind[fmt.Sprintf("%s#%d", local, k)] = bd
+							}
 						}
 						resolved = true
 					}
+				}
+			}
+			if !resolved {
+				if cf, bind := closureFromFactory(v); cf != nil {
+					b.Fns[-1] = cf
+					if f.BuiltinBind == nil {
+						f.BuiltinBind = map[string]map[*ssa.FreeVar]ssa.Value{}
+					}
+					f.BuiltinBind[local+"#-1"] = bind
+					resolved = true
 				}
 			}
 			if !resolved {
